@@ -12,6 +12,8 @@ R08.4 (value-flow normal form, inlined) dimension rule: [1] for 1-D data, shape[
       a pre-set DIMENSION that differs raises; a pre-set ELEMENT-LIMIT survives only if it bounds the dimension.
 R08.5 (value-flow normal form) record length: FDATA body = OBNAME + UVARI + one piece per slot (field-wise, so no padding bytes of the
       source layout are written); the zero-copy fast path is taken only under exact dtype equality.
+R08.6 (shared, = C02 R02.1/2/4/5 + C10 R10.1-3) the transport below the records: segments partition each body in order with
+      correct bracketing and padding, the output buffer and the byte writer hand on exactly those bytes.
 """
 
 from __future__ import annotations
@@ -38,6 +40,8 @@ def run(chk):
     chk.guard(r08_3_setup_on_every_path, chk)
     chk.guard(r08_4_dimension_rule, chk)
     chk.guard(r08_5_record_layout, chk)
+    from ._layout import transport_integrity
+    chk.guard(transport_integrity, chk, "R08.6")
 
 
 def r08_1(chk):
